@@ -93,7 +93,12 @@ void MatrixPreprocess(matrix *orig,
     if(colaverage->size > 0){
       for(j = 0; j < trans->col; j++){
         for(i = 0; i < trans->row; i++){
-          trans->data[i][j] = orig->data[i][j] - colaverage->data[j];
+          if(FLOAT_EQ(orig->data[i][j], MISSING, 1e-1)){
+            continue;
+          }
+          else{
+            trans->data[i][j] = orig->data[i][j] - colaverage->data[j];
+          }
         }
       }
     }
@@ -107,14 +112,19 @@ void MatrixPreprocess(matrix *orig,
 
     if(colscaling->size > 0){
       for(j = 0; j < trans->col; j++){
-        if(FLOAT_EQ(colscaling->data[j], 0.f, 1e-2)){
+        if(FLOAT_EQ(colscaling->data[j], 0.f, EPSILON)){
           for(i = 0; i < trans->row; i++){
             trans->data[i][j] = 0.f;
           }
         }
         else{
           for(i = 0; i < trans->row; i++){
-            trans->data[i][j] /= colscaling->data[j];
+            if(FLOAT_EQ(trans->data[i][j], MISSING, 1e-1)){
+              continue;
+            }
+            else{
+              trans->data[i][j] /= colscaling->data[j];
+            }
           }
         }
       }
